@@ -346,9 +346,6 @@ PROPS["C13"] = dict(
     outside="runs of two or more instructions (equality with repeated single steps is by induction over this step only for the stop conditions checked after each step), interrupts arriving during a run, Breakpoint kinds other than PC, MCR cleared by the program through the mapped register, run() without limit",
     assumptions=_K_STUBS + ["frame depth < 2^64-5", "CBMC pointer checks off (--no-memory-safety-checks)"],
     harnesses=[
-        H("c13_run_limit1_iregs_vt", tier="thorough", stubbing=True, kani_args=_K_ARGS, unwindset=_RUN_LOOP, heavy=True, timeout=3000, cover_tags=["step", "mem", "calls", "depth", "run", "iregs", "mcr"],
-          encodes=_C13_ENC + ["Simulator::mmap_internal", "InternalRegister::{read,write}"],
-          bound="run_with_limit(1) from any state with the default internal-register mappings (PSR xFFFC, MCR xFFFE), virtual traps, no pending interrupt: includes the executed instruction clearing the MCR at the same boundary as the step limit (stop reason = halted)"),
         H("c13_run_limit1_vt", tier="thorough", stubbing=True, kani_args=_K_ARGS, unwindset=_RUN_LOOP, heavy=True, timeout=1800, cover_tags=["step", "mem", "calls", "depth", "run"],
           encodes=_C13_ENC, bound="run_with_limit(1) from any state, virtual traps, no pending interrupt, no register mapping (one symbolic step: the loop condition folds to a constant after it; 11 min, 23 GB)"),
         H("c13_run_breakpoint_vt", tier="thorough", stubbing=True, kani_args=_K_ARGS, unwindset=_RUN_LOOP, heavy=True, timeout=1800, cover_tags=["step", "mem", "calls", "depth", "run", "bp"],
